@@ -37,7 +37,7 @@ LEAN_TY = {"Nat": "Nat", "Int": "Int", "Bool": "Bool", "OptNat": "Option Nat", "
            "Info": "PM.Info", "Res": "PM.Res", "Toks": "List PM.Token", "Strids": "List (Char × Nat)",
            "NatList": "List Nat", "CharList": "List Char", "YMD": "PM.YMD", "NatPair": "Nat × Nat",
            "NatOptPair": "Nat × Option Nat", "OptPair": "Option (Nat × Nat)", "Unit": "Unit",
-           "TokPair": "PM.Token × PM.Token", "DecimalV": "PPy.DecimalV", "FoldDt": "PPy.FoldDt"}
+           "TokPair": "PM.Token × PM.Token", "NumRet": "Nat × PM.Ymd × PM.Res", "DecimalV": "PPy.DecimalV", "FoldDt": "PPy.FoldDt"}
 PAIR_TYPES = {"NatPair": ("Nat", "Nat"), "NatOptPair": ("Nat", "OptNat"), "TokPair": ("Tok", "Tok")}
 # (methods of `parser` that are themselves translated: PARSER_METHODS below)
 
@@ -367,6 +367,18 @@ class Tr:
                 return "(PM.isDigitTok cls %s)" % recv, "Bool"
             if rt == "Tok" and f.attr == "lower" and not e.args:
                 return "(PM.lower %s)" % recv, "Tok"
+            if rt == "Tok" and f.attr == "find" and len(e.args) == 1:
+                a, ta = self.E(e.args[0], pre)
+                return "(PPy.strFind %s %s)" % (recv, self.char_of(a, ta)), "Int"
+            if rt == "Ymd" and f.attr == "could_be_day" and len(e.args) == 1:
+                a, ta = self.E(e.args[0], pre)
+                if ta != "Dec": raise Untranslatable("could_be_day(%s)" % ta)
+                x = self.fresh("cb")
+                pre.append((x, "Gen.P.ymd_couldBeDay %s %s" % (recv, a), "Bool"))
+                return x, "Bool"
+            if rt == "Parser" and f.attr == "_adjust_ampm" and len(e.args) == 2:
+                a, ta = self.E(e.args[0], pre); b, tb = self.E(e.args[1], pre)
+                return "(Gen.adjustAmpm %s %s)" % (self.coerce(a, ta, "Int", pre), self.coerce(b, tb, "Int", pre)), "Int"
             if rt == "Tok" and f.attr == "split" and len(e.args) == 1:
                 a, ta = self.E(e.args[0], pre)
                 x = self.fresh("p")
@@ -381,11 +393,22 @@ class Tr:
             if rt == "FoldDt" and f.attr == "tzname" and not e.args:
                 return "(PPy.FoldDt.tzname %s)" % recv, "OptTok"
             if rt == "Parser" and f.attr in PARSER_METHODS:
-                fn, atys, rty = PARSER_METHODS[f.attr]
-                if len(e.args) != len(atys): raise Untranslatable("arguments of self.%s" % f.attr)
+                fn, atys, rty = PARSER_METHODS[f.attr][:3]
+                actual = list(e.args)
+                if e.keywords:
+                    names = PARSER_METHODS[f.attr][3]
+                    kw = {k.arg: k.value for k in e.keywords}
+                    for nm in names[len(actual):]:
+                        if nm not in kw: raise Untranslatable("arguments of self.%s" % f.attr)
+                        actual.append(kw.pop(nm))
+                    if kw: raise Untranslatable("keyword %s of self.%s" % (sorted(kw)[0], f.attr))
+                if len(actual) != len(atys): raise Untranslatable("arguments of self.%s" % f.attr)
                 args = []
-                for a, want in zip(e.args, atys):
+                for a, want in zip(actual, atys):
                     t, ty = self.E(a, pre)
+                    if want == "Info":
+                        if t != "info": raise Untranslatable("a parserinfo other than self.info is passed on")
+                        continue
                     args.append(self.coerce(t, ty, want, pre))
                 x = self.fresh("r")
                 pre.append((x, "%s %s" % (fn, " ".join(args)), rty))
@@ -559,6 +582,7 @@ class Tr:
         if ty == "OptInt": return "(PPy.truthyOptInt %s = true)" % t
         if ty == "None": return False
         if ty == "Dec": return "(PM.Dec.isZero %s = false)" % t
+        if ty == "Ymd": return "(%s.vals.length ≠ 0)" % t
         raise Untranslatable("truthiness of %s" % ty)
 
     def cmp1(self, left, lv, op, right, pre):
@@ -574,7 +598,7 @@ class Tr:
             raise Untranslatable("is None on %s" % tl)
         if isinstance(op, (ast.In, ast.NotIn)):
             neg = isinstance(op, ast.NotIn)
-            if isinstance(right, ast.List):
+            if isinstance(right, (ast.List, ast.Tuple)):
                 alts = []
                 for el in right.elts:
                     r, tr = self.E(el, pre)
@@ -660,9 +684,42 @@ class Tr:
                 for n in self.assigned(s.body) + self.assigned(s.orelse): add(n)
             elif isinstance(s, ast.Expr) and self.is_super_append(s.value):
                 add("self")
+            elif isinstance(s, ast.Expr) and self.mutating_call(s.value) is not None:
+                add(self.mutating_call(s.value)[0])
             elif isinstance(s, ast.Try):
                 for n in self.assigned(s.body) + [m for h in s.handlers for m in self.assigned(h.body)]: add(n)
         return out
+
+    def mutating_call(self, v):
+        """`ymd.append(val[, label])` / `self._assign_hms(res, value_repr, hms)`: (mutated object, builder of the call text)"""
+        if not (isinstance(v, ast.Call) and isinstance(v.func, ast.Attribute) and isinstance(v.func.value, ast.Name)):
+            return None
+        recv = v.func.value.id
+        rt = self.types.get(recv)
+        if rt == "Ymd" and recv != "self" and v.func.attr == "append" and 1 <= len(v.args) <= 2 and not v.keywords:
+            def build(pre):
+                a, ta = self.E(v.args[0], pre)
+                if ta in ("OptNat", "Int"): a, ta = self.coerce(a, ta, "Nat", pre), "Nat"
+                fn = {"Tok": "ymd_appendTok", "Dec": "ymd_appendDec", "Nat": "ymd_appendNat"}.get(ta)
+                if fn is None: raise Untranslatable("ymd.append(%s)" % ta)
+                lab = "PM.Label.none"
+                if len(v.args) == 2:
+                    l, tl = self.E(v.args[1], pre)
+                    lab = self.label_of(l, tl)
+                return "Gen.P.%s cls %s %s %s" % (fn, recv, a, lab)
+            return recv, build
+        if rt == "Parser" and v.func.attr == "_assign_hms" and len(v.args) == 3 and isinstance(v.args[0], ast.Name) \
+                and self.types.get(v.args[0].id) == "Res":
+            def build(pre):
+                a, ta = self.E(v.args[1], pre); b, tb = self.E(v.args[2], pre)
+                return "Gen.P.assignHms cls info %s %s %s" % (v.args[0].id, self.coerce(a, ta, "Tok", pre), self.coerce(b, tb, "Nat", pre))
+            return v.args[0].id, build
+        if rt == "NatList" and v.func.attr == "append" and len(v.args) == 1:
+            def build(pre):
+                a, ta = self.E(v.args[0], pre)
+                return ".ok (%s ++ [%s])" % (recv, self.coerce(a, ta, "Nat", pre))
+            return recv, build
+        return None
 
     def is_super_append(self, v):
         return isinstance(v, ast.Call) and isinstance(v.func, ast.Attribute) and v.func.attr == "append" \
@@ -691,6 +748,30 @@ class Tr:
         for s in stmts:
             visit(s, set())
         return out
+
+    def live_in(self, stmts, live_out):
+        """names whose value on entry to `stmts` can be read (by `stmts` or afterwards)"""
+        live = set(live_out)
+        for s in reversed(stmts):
+            if isinstance(s, ast.Assign) and len(s.targets) == 1:
+                t = s.targets[0]
+                names = [el.id for el in (t.elts if isinstance(t, ast.Tuple) else [t]) if isinstance(el, ast.Name)]
+                others = [el for el in (t.elts if isinstance(t, ast.Tuple) else [t]) if not isinstance(el, ast.Name)]
+                live = (live - set(names)) | self.reads([ast.Expr(value=s.value)]) | self.reads([ast.Expr(value=o) for o in others])
+            elif isinstance(s, ast.If):
+                live = self.reads([ast.Expr(value=s.test)]) | self.live_in(s.body, live) | self.live_in(s.orelse, live)
+            elif isinstance(s, ast.Return):
+                r = self.spec.returns
+                live = self.reads([s]) | (set(r if isinstance(r, list) else [r]) if r else set())
+            elif isinstance(s, ast.Raise):
+                live = set()
+            else:
+                live = live | self.reads([s])
+        return live
+
+    def returns_text(self):
+        r = self.spec.returns
+        return self.ret_text(r if isinstance(r, list) else [r])
 
     def ret_text(self, names):
         names = [self.lname(n) for n in names]
@@ -722,7 +803,17 @@ class Tr:
                 a, ta = self.E(v.args[0], pre)
                 a = self.coerce(a, ta, "Nat", pre)
                 return self.wrap(pre, "let self := { self with vals := self.vals ++ [%s] }\n%s" % (a, nxt()))
+            m = self.mutating_call(v)
+            if m is not None:
+                obj, builder = m
+                pre = []
+                call = builder(pre)
+                x = self.fresh("m")
+                pre.append((x, call, self.types[obj]))
+                return self.wrap(pre, "let %s := %s\n%s" % (self.lname(obj), x, nxt()))
             raise Untranslatable("expression statement %s" % ast.unparse(v)[:40])
+        if isinstance(s, ast.AugAssign):
+            return self.assign(s.target, ast.BinOp(left=s.target, op=s.op, right=s.value), nxt)
         if isinstance(s, ast.Assign):
             if len(s.targets) != 1: raise Untranslatable("chained assignment")
             return self.assign(s.targets[0], s.value, nxt)
@@ -739,7 +830,7 @@ class Tr:
             return ".error .%s" % name
         if isinstance(s, ast.Return):
             if self.spec.returns:
-                return ".ok %s" % self.lname(self.spec.returns)
+                return ".ok %s" % self.returns_text()
             if s.value is None: raise Untranslatable("bare return")
             pre = []
             t, ty = self.E(s.value, pre)
@@ -905,7 +996,7 @@ class Tr:
             els = branch(s.orelse, cont, live_out)
             self.types, self.static, self.narrow = saved
             return self.wrap(pre, "(if %s then\n%s\nelse\n%s)" % (c, thn, els))
-        live = self.reads(rest) | set(live_out)
+        live = self.live_in(rest, live_out)
         vs = [v for v in self.assigned([s]) if v in live]
         for v in vs:
             if v not in saved[0] and not (v in self.assigned(s.body) and v in self.assigned(s.orelse)):
@@ -948,8 +1039,8 @@ class Tr:
             if not (n == "info" and sp.self_type == "Parser"):
                 params.append("(%s : %s)" % (self.lname(n), lty(declared[n])))
         if sp.returns:
-            k = lambda: ".ok %s" % self.lname(sp.returns)
-            live = {sp.returns}
+            k = lambda: ".ok %s" % self.returns_text()
+            live = set(sp.returns) if isinstance(sp.returns, list) else {sp.returns}
         else:
             def k():
                 raise Untranslatable("control falls off the end of the function")
@@ -978,7 +1069,13 @@ CLS = ("cls", "Char → PM.CClass")
 # methods of `parser` that are themselves translated: name -> (Lean function, argument types, result type)
 PARSER_METHODS = {"_to_decimal": ("Gen.P.toDecimal cls info", ["Tok"], "Dec"),
                   "_parse_min_sec": ("Gen.P.parseMinSec info", ["Dec"], "NatOptPair"),
-                  "_parsems": ("Gen.P.parsems cls info", ["Tok"], "NatPair")}
+                  "_parsems": ("Gen.P.parsems cls info", ["Tok"], "NatPair"),
+                  "_find_hms_idx": ("Gen.P.findHmsIdx info", ["Nat", "Toks", "Info", "Bool"], "OptNat",
+                                    ["idx", "tokens", "info", "allow_jump"]),
+                  "_parse_hms": ("Gen.P.parseHms info", ["Nat", "Toks", "Info", "OptNat"], "NatOptPair",
+                                 ["idx", "tokens", "info", "hms_idx"]),
+                  "_ampm_valid": ("Gen.P.ampmValid info", ["OptNat", "OptNat", "Bool"], "Bool"),
+                  "_could_be_tzname": ("Gen.P.couldBeTzname info", ["OptNat", "OptTok", "OptInt", "Tok"], "Bool")}
 YMD_PROPS = ["_ymd.has_year", "_ymd.has_month", "_ymd.has_day"]
 
 INFO = dict(self_type="Info")
@@ -1021,6 +1118,10 @@ PARSER_SPECS = [
         locals_={"key": None}),
     PFn("_ymd.resolve_ymd", "ymd_resolveYmd", [("yearfirst", "Bool"), ("dayfirst", "Bool")], "YMD", self_type="Ymd",
         locals_={"year": "OptNat", "month": "OptNat", "day": "OptNat"}),
+    # ---- parser: the token-level functions (they call the ones above)
+    PFn("parser._parse_numeric_token", "parseNumericToken",
+        [("tokens", "Toks"), ("idx", "Nat"), ("info", "Info"), ("ymd", "Ymd"), ("res", "Res"), ("fuzzy", "Bool")], "NumRet",
+        self_type="Parser", ctx=[CLS], returns=["idx", "ymd", "res"], locals_={"idx": "Nat"}, inlines=YMD_PROPS),
 ]
 
 
